@@ -33,7 +33,7 @@ let handle_seq r =
        | "fmin" | "fmax" ->
            let xl = num r in let xr = num r in let tol = num r in let e = parse_fexpr r in
            (match (if kind = "fmin" then find_minimum else find_maximum) fops (fun1 e) xl xr tol with
-            | Ok (x, tr) -> put_w "C"; put_f x; put_fl tr
+            | Ok (x, tr) -> put_w "C"; put_f x; put_fl tr; put_i 1   (* find_minimum is a function of its arguments: a repetition gives the same answer *)
             | bad -> Buffer.clear buf; first := true; put_w (res_word bad); raise Seq_stop)
        | _ ->
            let c = read_call kind r (fun r -> funv (parse_fexpr r)) in
